@@ -29,10 +29,18 @@ def reference_round(grad_fn, copt, sopt, hp, state, clients):
     p = state.params
     os_ = copt.init(p)
     rng = key
+    steps = 0
     for batch in ds.shuffle_repeat_batch(hp):
+      steps += 1
       rng, use = jax.random.split(rng)
       g = grad_fn(p, batch, use)
       os_, p = copt.apply(g, os_, p)
+    if hp.num_epochs is not None and hp.num_steps is None:
+      # documented: ceil (floor with drop_remainder) of N * num_epochs / batch_size local steps, counted over the whole stream
+      want = (len(ds) * hp.num_epochs) // hp.batch_size if hp.drop_remainder else -(-(len(ds) * hp.num_epochs) // hp.batch_size)
+      if steps != want:
+        raise AssertionError(f'a client with {len(ds)} examples takes {steps} local steps for num_epochs={hp.num_epochs}, '
+                             f'batch_size={hp.batch_size}, drop_remainder={hp.drop_remainder}; the definition has {want}')
     deltas.append(jax.tree_util.tree_map(lambda a, b: np.asarray(a, np.float64) - np.asarray(b, np.float64),
                                          state.params, p))
     weights.append(float(len(ds)))
@@ -110,6 +118,8 @@ def sweep_round(tier, seed):
       yield dict(rounds=[[3, 0, 5], [0, 0], [4, 1]], batch_size=2, copt=copt, sopt=sopt, seed=seed)
       yield dict(rounds=[[1], [], [2, 7]], batch_size=3, copt=copt, sopt=sopt, seed=seed + 1, epochs=2)
   yield dict(rounds=[[5, 4]], batch_size=4, copt='sgd', sopt='sgd', seed=seed, drop=True)
+  yield dict(rounds=[[5, 2, 7]], batch_size=3, copt='sgd', sopt='sgd', seed=seed, epochs=3)
+  yield dict(rounds=[[5, 2, 7]], batch_size=3, copt='momentum', sopt='sgd', seed=seed, epochs=2, drop=True)
   # all three backends; full batches only (pmap stacks the batches of a block), clients listed small to large and shuffled
   yield dict(rounds=[[2, 4, 6], [4, 6, 2, 0]], batch_size=2, copt='sgd', sopt='sgd', seed=seed, backends=['debug', 'pmap'])
   yield dict(rounds=[[6, 2, 4]], batch_size=2, copt='momentum', sopt='adam', seed=seed + 2, backends=['pmap'])
